@@ -14,7 +14,62 @@ func runRender(c Case) interface{} {
 		d := renderOne(ast, c["data"], true, nil)
 		return J{"prod": J{"class": p.Class, "out": p.Out, "msg": p.Msg}, "debug": J{"class": d.Class, "out": d.Out, "msg": d.Msg}}
 	}
+	if sub, ok := c["subst"].(map[string]interface{}); ok {
+		// C04: render with the hostile value and with a harmless marker in its place
+		data := c["data"].(map[string]interface{})
+		h := renderOne(ast, data, false, nil)
+		d2 := map[string]interface{}{}
+		for k, v := range data {
+			d2[k] = v
+		}
+		substMarker(d2, sub["hostile"].(string), sub["marker"].(string))
+		m := renderOne(ast, d2, false, nil)
+		return J{"class": h.Class, "out": h.Out, "msg": h.Msg, "marker_class": m.Class, "marker_out": m.Out, "tok": tokenize(h.Out)}
+	}
+	if o, _ := c["oracle"].(string); o == "attrs" {
+		res := renderOne(ast, c["data"], false, nil)
+		return J{"class": res.Class, "out": res.Out, "msg": res.Msg, "tok": tokenize(res.Out)}
+	}
 	debug, _ := c["debug"].(bool)
 	res := renderOne(ast, c["data"], debug, nil)
 	return J{"class": res.Class, "out": res.Out, "msg": res.Msg}
+}
+
+// substMarker replaces every string equal to hostile (at any depth) by marker, in a copy
+func substMarker(x interface{}, hostile, marker string) interface{} {
+	switch v := x.(type) {
+	case map[string]interface{}:
+		for k, e := range v {
+			v[k] = substMarker(copyVal(e), hostile, marker)
+		}
+		return v
+	case []interface{}:
+		for i, e := range v {
+			v[i] = substMarker(copyVal(e), hostile, marker)
+		}
+		return v
+	case string:
+		if v == hostile {
+			return marker
+		}
+	}
+	return x
+}
+
+func copyVal(x interface{}) interface{} {
+	switch v := x.(type) {
+	case map[string]interface{}:
+		m := map[string]interface{}{}
+		for k, e := range v {
+			m[k] = copyVal(e)
+		}
+		return m
+	case []interface{}:
+		a := make([]interface{}, len(v))
+		for i, e := range v {
+			a[i] = copyVal(e)
+		}
+		return a
+	}
+	return x
 }
